@@ -600,3 +600,5 @@ EVIDENCE = {p: {
                     "deep snapshots traverse every attribute reachable from the public objects (C09)",
                     "no storage or timing fault applies to process(); the fault dimension is the aborted call"],
 } for p in PROPS}
+REQUIRED_PROBES = {"C03": ["c03_rows_judged", "batch_mixed_dt", "keeping_policy_dropped_records"],
+                   "C09": ["frame_condition_judged", "repeat_judged"]}
